@@ -147,7 +147,7 @@ def hostile_cases(draw, algo, family, tier):
     hk = [k for k in V.HOSTILE_KINDS if not (k == 'badhashkey' and (keymap is None or keymap['cls'] == 'keymap'))]
     host = st.one_of(st.sampled_from(hk).map(lambda k: ['H', k]),
                      st.sampled_from([['l', [['i', 1]]], ['d', [[['s', 'a'], ['i', 1]]]], ['S', [['i', 1], ['i', 2]]], ['l', []],
-                                      ['t', [['l', [['i', 2]]]]], ['t', [['H', 'badhash']]]]))
+                                      ['t', [['l', [['i', 2]]]]], ['t', [['H', 'badhash']]], ['t', [['H', 'badhashrt']]], ['t', [['i', 1], ['H', 'memview']]]]))
     npool = draw(st.integers(5, 8))
     pool = []
     for j in range(npool):
@@ -191,6 +191,18 @@ def _is_hostile(spec):
     return False
 
 
+def sr(x):
+    """repr that survives arguments whose own __repr__ raises"""
+    try:
+        return repr(x)
+    except BaseException:
+        if isinstance(x, (tuple, list)):
+            return '(' + ', '.join(sr(e) for e in x) + ')'
+        if isinstance(x, dict):
+            return '{' + ', '.join('%s: %s' % (sr(k), sr(v)) for k, v in x.items()) + '}'
+        return '<%s: repr raises>' % type(x).__name__
+
+
 def check_hostile(case, tr):
     out = []
     flags = {'hostile_call': 0, 'hostile_then_overflow': 0, 'hostile_archived': 0, 'degraded': 0, 'ev': []}
@@ -210,10 +222,10 @@ def check_hostile(case, tr):
             any(_is_hostile(v) for _, v in b.get('xkw', []))
         if s.exc is not None:
             out.append(Discrepancy('C16/safe/%s/call-raised/%s' % (algo, H.exc_sig(s.exc)),
-                                   'step %d: safe cache raised %r for arguments %r %r (hostile=%s)' % (i, s.exc, s.args, s.kwds, hostile)))
+                                   'step %d: safe cache raised %s for arguments %s %s (hostile=%s)' % (i, sr(s.exc), sr(s.args), sr(s.kwds), hostile)))
             return out, flags
         if not same(s.result, s.expected):
-            out.append(Discrepancy('C16/safe/%s/wrong-result' % algo, 'step %d: %r vs %r' % (i, s.result, s.expected)))
+            out.append(Discrepancy('C16/safe/%s/wrong-result' % algo, 'step %d: %s vs %s' % (i, sr(s.result), sr(s.expected))))
             return out, flags
         if s.evals > 1:
             out.append(Discrepancy('C16/safe/%s/evaluated-%d-times' % (algo, s.evals), 'step %d' % i))
